@@ -50,7 +50,7 @@ def run(tier):
     bdir = common.build("plain")
     dw = os.path.join(bdir, "bin", "dwgrep")
     out = os.path.join(wd, "cli.ndjson")
-    r = tlc.run_tlc("CliGen", constants={"OutFile": out}, workers=1, timeout=1500, heap="8g")
+    r = tlc.run_tlc("CliGen", constants={"OutFile": out, "PinnedCount": False, "PinnedZeroArg": False}, workers=1, timeout=1500, heap="8g")
     if not r.ok or not os.path.exists(out):
         if "ssumption" in r.out:
             vd.observe("model:contract-sanity", {"output": r.out[-3000:]})
